@@ -91,14 +91,17 @@ Analyze(text, chain) == ApplyFilters(Tokenize(text, chain.tok), chain.filters, 1
 \* slice it points to
 OnBoundary(text, b) == b \in SeqSet(Offs(text))
 Normalising(chain) == chain.tok[1] = "facet" \/ \E k \in 1..Len(chain.filters) : chain.filters[k][1] \in {"lower", "asciifold", "stemmer", "splitcompound"}
-SliceBytes(text, from, to) ==
-  LET o == Offs(text)  I == {i \in 1..(Len(text) + 1) : o[i] = from}  J == {j \in 1..(Len(text) + 1) : o[j] = to}
-  IN  SubSeq(text, CHOOSE i \in I : TRUE, (CHOOSE j \in J : TRUE) - 1)
+\* the code points between two byte offsets (both on boundaries), given o = Offs(text)
+SliceWith(text, o, from, to) ==
+  LET i == CHOOSE x \in 1..Len(o) : o[x] = from   j == CHOOSE x \in 1..Len(o) : o[x] = to
+  IN  SubSeq(text, i, j - 1)
+SliceBytes(text, from, to) == SliceWith(text, Offs(text), from, to)
 TokenInv(text, chain, ts) ==
+  LET o == Offs(text)   B == SeqSet(o)   total == o[Len(o)]   norm == Normalising(chain) IN
   /\ \A k \in 1..Len(ts) :
-       /\ ts[k][1] <= ts[k][2] /\ ts[k][2] <= ByteLen(text)
-       /\ OnBoundary(text, ts[k][1]) /\ OnBoundary(text, ts[k][2])
-       /\ ~Normalising(chain) => ts[k][4] = SliceBytes(text, ts[k][1], ts[k][2])
+       /\ ts[k][1] <= ts[k][2] /\ ts[k][2] <= total
+       /\ ts[k][1] \in B /\ ts[k][2] \in B
+       /\ ~norm => ts[k][4] = SliceWith(text, o, ts[k][1], ts[k][2])
   /\ \A k \in 1..(Len(ts) - 1) : ts[k][3] <= ts[k + 1][3]
 
 ---------------------------------------------------------------------------
